@@ -33,7 +33,7 @@ def BOUNDS(tier):
             "of the I/O thread and %s with at most 1 pre-emption at source-line granularity of channel.py (2 pre-emptions for the follower split "
             "across two reads after %s)." % (
                 sorted(CLOSERS), sorted(FOLLOW), " and {2,5} for the closers CC / E400 with the followers 'two' / 'split'" if tier == "quick" else " and {2,5}",
-                "one worker" if tier == "quick" else "one or two workers", "Connection: close, lookahead 1" if tier == "quick" else "CC / H10 / E400, lookahead 1 and 2"))
+                "one worker" if tier == "quick" else "one or two workers", "Connection: close, lookahead 1, client taking every byte" if tier == "quick" else "CC / H10 / E400, lookahead 1 and 2"))
 
 
 def jobs(tier):
@@ -48,7 +48,7 @@ def jobs(tier):
     # before it tears the connection down): the later read, no leading request
     for c in (("CC",) if tier == "quick" else ("CC", "H10", "E400")):
         for la in ((1,) if tier == "quick" else (1, 2)):
-            for acc in range(3):
+            for acc in ((0,) if tier == "quick" else range(3)):  # quick: the client takes everything; thorough: also would-block / slow client
                 js.append(dict(name="%s:split:la%d:P2:acc0=%d" % (c, la, acc), closer=c, follow="split", lookahead=la, workers=1, P=2,
                                force={"lead": 0, "later": 1, "acc0": acc}))
     if tier == "thorough":
